@@ -199,7 +199,9 @@ class Paraxial:
         # find marginal ray height at image surface
         ya, ua = self.marginal_ray()
         yi = ya[-1]
-        ui = ua[-1]
+        # slope with which the ray arrives at the image surface (the image
+        # surface refracts into its own post medium)
+        ui = ua[-2]
 
         # find distance from image surface to exit pupil location
         xpl = self.XPL()
